@@ -374,29 +374,34 @@ def run_case(case, seed=0, replay_dir=None, known=None):
             x = Q.lift(x) if not hasattr(x, "c") else x
             return sum(len(c.d) for c in x.c if isinstance(c, P))
         cand = sorted(rels, key=lambda t: _size(t[1]) + _size(t[2]))
+        allv_t = list(V.vars.values()) + [z3.Real(n) for n in P_VARS.names if n.startswith("@")]
+        # pass 1: canonical differences - a seeded rational point inside the precondition where lhs != 2 rhs (no solver involved)
+        sampled = 0
         for label, lhs, rhs in cand:
-            if twins["sat"] >= 2 or twins["tried"] >= 8:
+            if twins["sat"] >= 2 or sampled >= 12:
                 break
-            big = _size(lhs) + _size(rhs) > 60000  # too large to hand to the solver: a sampled witness only
             rhs2 = rhs * 2 if hasattr(rhs, "__mul__") else rhs
             polys2 = qdom.diff_polys(lhs, rhs2)
-            if polys2 is not None and all(qdom.rzero(d) for d in polys2):
+            if polys2 is None or all(qdom.rzero(d) for d in polys2):
                 continue
-            side = []
-            if not big:
-                dis, side = qdom.diff_terms(lhs, rhs2)
-                if not dis:
-                    continue
+            sampled += 1
             twins["tried"] += 1
             if os.environ.get("VERIF_DEBUG_SAMPLE"):
-                print(f"[twin] {label}: polys2={'None' if polys2 is None else [type(d).__name__ for d in polys2]} sizes {_size(lhs)} {_size(rhs)}", file=sys.stderr)
-            if polys2 is not None and _sample_nonzero(polys2, V, seed + 7, pre=pre + side, case=case) is not None:
-                twins["sat"] += 1  # a seeded rational point inside the precondition where lhs != 2 rhs
+                print(f"[twin] {label}: sizes {_size(lhs)} {_size(rhs)}", file=sys.stderr)
+            if _sample_nonzero(polys2, V, seed + 7, pre=pre, case=case) is not None:
+                twins["sat"] += 1
+        # pass 2: the solver, on the smallest relations (also the only way for differences that contain if-then-else terms)
+        solved = 0
+        for label, lhs, rhs in cand:
+            if twins["sat"] >= 1 or solved >= 6 or _size(lhs) + _size(rhs) > 60000:
+                break
+            rhs2 = rhs * 2 if hasattr(rhs, "__mul__") else rhs
+            dis, side = qdom.diff_terms(lhs, rhs2)
+            if not dis:
                 continue
-            if big:
-                continue
-            r = dec.decide(pre + side + [z3.Or(*dis)], timeout_ms=10000, seed=seed + 7, guided_first=True, tries=3,
-                           variables=list(V.vars.values()) + [z3.Real(n) for n in P_VARS.names if n.startswith("@")])
+            solved += 1
+            twins["tried"] += 1
+            r = dec.decide(pre + side + [z3.Or(*dis)], timeout_ms=10000, seed=seed + 7, guided_first=True, tries=6, variables=allv_t)
             if r.status == "sat":
                 twins["sat"] += 1
         res["twins"] = twins
